@@ -312,13 +312,17 @@ the text, beyond ASCII: U+0085, U+00A0, U+1680, U+2000–U+200A, U+2028, U+2029,
 U+202F, U+205F, U+3000; 0 = none.  (Each starts with a lead byte, which Go's
 decoder never takes for part of the previous rune, so this is what
 `utf8.DecodeRune` sees on any byte string.) -/
+def uSp2 (c x : UInt8) : Bool := c == 0xC2 && (x == 0x85 || x == 0xA0)
+
+def uSp3 (c x y : UInt8) : Bool :=
+  (c == 0xE1 && x == 0x9A && y == 0x80) ||
+  (c == 0xE2 && x == 0x80 && ((0x80 ≤ y && y ≤ 0x8A) || y == 0xA8 || y == 0xA9 || y == 0xAF)) ||
+  (c == 0xE2 && x == 0x81 && y == 0x9F) ||
+  (c == 0xE3 && x == 0x80 && y == 0x80)
+
 def uSpaceLen : Bytes → Nat
-  | 0xC2 :: x :: _ => if x == 0x85 || x == 0xA0 then 2 else 0
-  | 0xE1 :: x :: y :: _ => if x == 0x9A && y == 0x80 then 3 else 0
-  | 0xE2 :: x :: y :: _ =>
-    if x == 0x80 && ((0x80 ≤ y && y ≤ 0x8A) || y == 0xA8 || y == 0xA9 || y == 0xAF) then 3
-    else if x == 0x81 && y == 0x9F then 3 else 0
-  | 0xE3 :: x :: y :: _ => if x == 0x80 && y == 0x80 then 3 else 0
+  | c :: x :: y :: _ => if uSp2 c x then 2 else if uSp3 c x y then 3 else 0
+  | [c, x] => if uSp2 c x then 2 else 0
   | _ => 0
 
 /-- does the text contain a non-ASCII white-space rune? -/
